@@ -235,6 +235,15 @@ def block_edge_filter(blocked):
     return lambda term, succ: (term.blk.id, succ) not in bl
 
 
+def contra_edges(f, inst):
+    """CFG edges whose condition contradicts a condition that dominates `inst` (same SSA operands, negated predicate): no feasible path that
+    starts at `inst` takes them - `if (c) acquire(); ...; if (c) release();`"""
+    guard = set((NEGP[a[0]], a[1], a[2]) for a in dom_leaf_atoms(f, inst) if a[0] in NEGP)
+    if not guard:
+        return []
+    return [(t.blk.id, s_) for t, s_, a in branch_edges_on(f, lambda a: (a[0], a[1], a[2]) in guard)]
+
+
 def require(cond, msg):
     if not cond:
         raise Broken(msg)
